@@ -9,10 +9,14 @@ import (
 // FileFingerprint stores a file's modification time and size.
 // It can be written to or read from disk as JSON. Older versions
 // may not have the CRC32 field, so it is optional in comparisons.
+//
+// SnapshotID, if set, is the ID of the snapshot the file was consistent with
+// when the fingerprint was taken. Older versions do not have it.
 type FileFingerprint struct {
-	ModTime time.Time `json:"mod_time"`
-	Size    int64     `json:"size"`
-	CRC32   uint32    `json:"crc32,omitempty"`
+	ModTime    time.Time `json:"mod_time"`
+	Size       int64     `json:"size"`
+	CRC32      uint32    `json:"crc32,omitempty"`
+	SnapshotID string    `json:"snapshot_id,omitempty"`
 }
 
 // WriteToFile saves the fingerprint to a file and fsyncs it to disk.
